@@ -179,14 +179,23 @@ def ofRaw (r : RawEv) : Option Ev :=
   | "note", ["ret", "unlock"] => some (.retUnlock t)
   | "note", ["cs", "enter"] => some (.csEnter t)
   | "note", ["cs", "exit"] => some (.csExit t)
-  | "fadd", ["lock+4/4", old, "1", _] => old.toNat?.map (Ev.faddUsers t)
-  | "ld", ["lock/4", x, _] => x.toNat?.map (Ev.ldTicket t)
-  | "st", ["lock/4", x, _] => x.toNat?.map (Ev.stTicket t)
+  -- Memory orders are part of the correspondence: the acquiring accesses (ticket draw, spin
+  -- load, trylock's CAS) must be at least acquire and the releasing store at least release,
+  -- otherwise "writes made in the critical section are seen by the next owner" has no basis
+  -- in the C11 model even where the x86-64 object code is identical.
+  | "fadd", ["lock+4/4", old, "1", mo] => if acq mo then old.toNat?.map (Ev.faddUsers t) else none
+  | "ld", ["lock/4", x, mo] => if acq mo then x.toNat?.map (Ev.ldTicket t) else none
+  | "st", ["lock/4", x, mo] => if rel mo then x.toNat?.map (Ev.stTicket t) else none
   | "ld", ["lock", v, _] => (parseU64 v).map (fun v => Ev.ldBlob t (lo32 v) (hi32 v))
-  | "cas", ["lock", f, e, d, ok, _] => do
+  | "cas", ["lock", f, e, d, ok, mo] => do
     let f ← parseU64 f; let e ← parseU64 e; let d ← parseU64 d; let ok ← parseBool ok
-    pure (Ev.casBlob t (lo32 f) (hi32 f) (lo32 e) (hi32 e) (lo32 d) (hi32 d) ok)
+    if acq mo then pure (Ev.casBlob t (lo32 f) (hi32 f) (lo32 e) (hi32 e) (lo32 d) (hi32 d) ok) else none
   | _, _ => none
+where
+  /-- mo2 acquire, mo4 acq_rel, mo5 seq_cst -/
+  acq (mo : String) : Bool := mo = "mo2" || mo = "mo4" || mo = "mo5"
+  /-- mo3 release, mo4 acq_rel, mo5 seq_cst -/
+  rel (mo : String) : Bool := mo = "mo3" || mo = "mo4" || mo = "mo5"
 
 /-! ### API-level monitor on the notes (failing-input search)
 
